@@ -83,11 +83,11 @@ def run_program(rec, hub, seed_rng, steps, letters="abcd", ill_rate=0.3, props=(
             return (f"full bad fill {ls2}", None, [lambda: fd.FlodymArray.full(ds, np.ones(wrong_shape(ds.shape))) if ill else fd.FlodymArray.full(ds, np.ones(ds.shape))])
         if kind == "binop":
             y = pick() if rng.random() < 0.8 else float(rng.integers(1, 9))
-            op = rng.choice(["add", "sub", "mul", "div", "pow", "min", "max", "radd", "rsub", "neg", "abs"])
+            op = rng.choice(["add", "sub", "mul", "div", "pow", "min", "max", "radd", "rsub", "neg", "abs", "radd0", "sum1", "sum2"])
             if ill:
                 y = rng.choice(["text", None])
             f = {"add": lambda: x + y, "sub": lambda: x - y, "mul": lambda: x * y, "div": lambda: x / y, "pow": lambda: x**y,
-                 "min": lambda: x.minimum(y), "max": lambda: x.maximum(y), "radd": lambda: 2 + x, "rsub": lambda: 2 - x,
+                 "min": lambda: x.minimum(y), "max": lambda: x.maximum(y), "radd": lambda: 2 + x, "rsub": lambda: 2 - x, "radd0": lambda: (0 + x) if rng.random() < 0.5 else (0.0 + x), "sum1": lambda: sum([x]), "sum2": lambda: sum([x, y]) if isinstance(y, fd.FlodymArray) else sum([x, x]),
                  "neg": lambda: -x, "abs": lambda: abs(x)}[op]
             return (f"{op}", None, [f])
         if kind == "reduce":
@@ -194,6 +194,19 @@ def run_program(rec, hub, seed_rng, steps, letters="abcd", ill_rate=0.3, props=(
             if c == 2 and len(sl) > 1:  # time not first
                 ds2 = fd.DimensionSet(dim_list=[Ut[l] for l in sl[1:] + sl[:1]])
                 return ("stock: time not first", None, [lambda: fd.SimpleFlowDrivenStock(dims=ds2, time_letter="t")])
+            if c == 3 and rng.random() < 0.5:
+                # same letters, other order (also with equal lengths, where shapes cannot tell)
+                eq = fd.Dimension(letter="q", name="quart", items=[1, 2, 3, 4])
+                eq2 = fd.Dimension(letter="w", name="width", items=["w1", "w2", "w3", "w4"])
+                sds = fd.DimensionSet(dim_list=[tdim, eq, eq2])
+                orders = [[tdim, eq2, eq], [eq, tdim, eq2], [eq2, eq, tdim]]
+                lmd = fd.DimensionSet(dim_list=orders[int(rng.integers(0, 3))])
+                try:
+                    lm = fd.LogNormalLifetime(dims=lmd, time_letter="t", mean=3.0, std=1.0)
+                except Exception:
+                    lm = None
+                if lm is not None:
+                    return ("stock: lifetime model dims permuted", None, [lambda: fd.InflowDrivenDSM(dims=sds, lifetime_model=lm, time_letter="t")])
             if c == 3:  # lifetime model dims differ
                 lmd = fd.DimensionSet(dim_list=[Ut["t"]] + ([] if len(sl) > 1 else [U[letters[0]]]))
                 lm = fd.NormalLifetime(dims=lmd, time_letter="t", mean=3.0, std=1.0)
